@@ -305,12 +305,25 @@ func c17Type(c *core.Ctx, wt *types.Named) {
 			if fn.Parent() != nil || fn.Signature.Recv() != nil {
 				continue
 			}
+			if core.InlineSite[fn] != nil {
+				continue // a single-use private step (newWrapper(ch, …)): analysed as part of its caller
+			}
 			var alloc *ssa.Alloc
 			core.Instrs(fn, func(in ssa.Instruction) {
 				if a, ok := in.(*ssa.Alloc); ok && core.NamedOf(a.Type().Underlying().(*types.Pointer).Elem()) == wt.Obj().Name() {
 					alloc = a
 				}
 			})
+			if alloc == nil {
+				// the wrapper may be built by a private constructor step whose result is returned
+				for _, r := range core.Returns(fn) {
+					for _, o := range core.XOrigins(r.Results[0]) {
+						if a, ok := core.Strip(o).(*ssa.Alloc); ok && core.NamedOf(a.Type().Underlying().(*types.Pointer).Elem()) == wt.Obj().Name() && core.InlineSite[a.Parent()] != nil && core.InlineSite[a.Parent()].Parent() == fn {
+							alloc = a
+						}
+					}
+				}
+			}
 			if alloc == nil {
 				continue
 			}
@@ -327,7 +340,7 @@ func c17Type(c *core.Ctx, wt *types.Named) {
 				if fa, ok := r.(*ssa.FieldAddr); ok {
 					if _, f, _ := core.FieldOf(fa); f == chField {
 						for _, rr := range core.Refs(fa) {
-							if s, ok := rr.(*ssa.Store); ok && s.Val == chParam[0] {
+							if s, ok := rr.(*ssa.Store); ok && (s.Val == chParam[0] || core.AllOrigins(core.ResolveFree(s.Val), func(o ssa.Value) bool { return o == chParam[0] })) {
 								stored = true
 							}
 						}
@@ -360,7 +373,15 @@ func c17Type(c *core.Ctx, wt *types.Named) {
 			for _, r := range core.Returns(fn) {
 				v := core.Strip(r.Results[0])
 				if v != chParam[0] && v != alloc {
-					okRet = false
+					viaCtor := false
+					for _, o := range core.XOrigins(r.Results[0]) {
+						if core.Strip(o) == ssa.Value(alloc) {
+							viaCtor = true
+						}
+					}
+					if !viaCtor {
+						okRet = false
+					}
 				}
 			}
 			c.Check(okRet, name+":returns", fn.Pos(), "every return yields the channel or the new wrapper", "a return yields something other than the channel or the new wrapper")
